@@ -729,7 +729,9 @@ def run(ctx: Ctx) -> None:
     ctx.add_tlc(g)
     ctx.note("model_config", "commands of 1..4 lines over the %s line alphabet; input / output structures of "
              "depth <= 2 over the %s leaf set" % (("rich", "rich") if not ctx.quick else ("small", "small")))
-    cmd_cases, io_cases = g.recs("CASE"), g.recs("IOCASE")
+    # (TLC's workers print in any order: sort, so that the seeded choices below are reproducible)
+    canon = lambda recs: sorted(recs, key=lambda r: json.dumps(r, sort_keys=True))  # noqa
+    cmd_cases, io_cases = canon(g.recs("CASE")), canon(g.recs("IOCASE"))
     ctx.require(len(cmd_cases) >= 7000 and len(io_cases) >= 1500,
                 f"too few cases from TLC: {len(cmd_cases)} commands, {len(io_cases)} structures")
 
